@@ -566,6 +566,47 @@ def _loader(repo, rep):
     rep.check("package_name, spec = spec.split(':', 1)" in t, "R16.3", site,
               "package-relative specs (package:path) are honoured",
               construct="package-spec", where=wh)
+    # 'package:directory' entries of the search path: an entry is one when
+    # it is NOT absolute AND contains a colon; it is cut at the FIRST colon
+    # into exactly two parts
+    ld_ = repo.func(LD + "load")
+    cuts = [a for a in ast.walk(ld_.node) if isinstance(a, ast.Assign)
+            and isinstance(a.targets[0], ast.Tuple)
+            and "package_name" in src(a.targets[0])
+            and isinstance(a.value, ast.Call)
+            and isinstance(a.value.func, ast.Attribute)]
+    okc = len(cuts) >= 2
+    cdetail = []
+    for a in cuts:
+        c = a.value
+        two = len(a.targets[0].elts) == 2
+        mx = None
+        if len(c.args) > 1:
+            try:
+                mx = ast.literal_eval(c.args[1])
+            except ValueError:
+                pass
+        first = (c.func.attr == "split" and mx == 1) or \
+            c.func.attr == "partition"
+        if not (two and first and c.args and isinstance(
+                c.args[0], ast.Constant) and c.args[0].value == ":"):
+            okc = False
+            cdetail.append(src(a)[:60])
+    rep.check(okc, "R16.3", ld_.qualname, "a package spec is cut at its "
+              "first colon into package and path (%d places)" % len(cuts),
+              construct="package-cut-first-colon", where=L.where(ld_),
+              detail="; ".join(cdetail))
+    tests = [n.test for n in ast.walk(ld_.node) if isinstance(n, ast.If)
+             and "isabs(path)" in src(n.test) and "':' in path" in src(
+                 n.test)]
+    okt = bool(tests) and all(
+        isinstance(t_, ast.BoolOp) and isinstance(t_.op, ast.And)
+        and sorted(src(v).replace(" ", "") for v in t_.values) == sorted(
+            ["notos.path.isabs(path)", "':'inpath"]) for t_ in tests)
+    rep.check(okt, "R16.3", ld_.qualname, "a search path entry is a package "
+              "spec when it is not absolute AND contains a colon",
+              construct="package-entry-test", where=L.where(ld_),
+              detail=str([src(t_) for t_ in tests]))
     ini = repo.func(LD + "__init__")
     t = L.text(ini.node)
     rep.check("self.default_extension = '.%s' % default_extension.lstrip('.')"
